@@ -25,6 +25,9 @@ struct Slot
     const void *obj1 = nullptr;
     const void *obj2 = nullptr;
     size_t index = 0;                   // unit index
+    // every distinct id stored for this item (a connection keeps one copy of its id per mapped variable pair, and the
+    // copies may differ); empty => {get()}
+    std::function<std::vector<std::string>()> allIds;
 };
 
 static bool inHierarchy(const ComponentPtr &c)
@@ -137,7 +140,17 @@ static std::vector<Slot> collect(const ModelPtr &m)
                              Variable::setEquivalenceConnectionId(p.first, p.second, x);
                          }
                      },
-                     key.first, key.second});
+                     key.first, key.second, 0,
+                     [pairs] {
+                         std::vector<std::string> out;
+                         for (const auto &p : pairs) {
+                             std::string id = Variable::equivalenceConnectionId(p.first, p.second);
+                             if (!id.empty() && std::find(out.begin(), out.end(), id) == out.end()) {
+                                 out.push_back(id);
+                             }
+                         }
+                         return out;
+                     }});
     }
     return s;
 }
@@ -146,6 +159,12 @@ static std::map<std::string, int> idCounts(const std::vector<Slot> &slots)
 {
     std::map<std::string, int> c;
     for (const auto &s : slots) {
+        if (s.allIds) {
+            for (const auto &id : s.allIds()) {
+                ++c[id];
+            }
+            continue;
+        }
         std::string id = s.get();
         if (!id.empty()) {
             ++c[id];
@@ -269,6 +288,13 @@ static void checkLookups(const AnnotatorPtr &ann, const ModelPtr &m, const std::
             for (const auto &s : slots) {
                 if (s.get() == kv.first) {
                     slot = &s;
+                }
+                if (s.allIds) {
+                    for (const auto &x : s.allIds()) {
+                        if (x == kv.first) {
+                            slot = &s;
+                        }
+                    }
                 }
             }
             stat("item_lookups");
